@@ -361,3 +361,11 @@ Qed.
    the ORIGINAL series - the data flow of Model.impute_core IDrift (fit on final_fill l, fill l) *)
 Lemma bridge_drift_flow : gen_drift_fit_on = ZFilledCopy /\ gen_drift_fill_into = ZOriginal.
 Proof. split; reflexivity. Qed.
+
+(* ---------- row transformers ---------- *)
+
+(* instance i's clone of the wrapped transformer is applied to X[i].T - an object derived from X and
+   i alone (Model.row_s2s / row_s2p map the wrapped function over every instance's OWN cells); the
+   translator accepts no other per-instance input and no state shared between the iterations *)
+Lemma bridge_row_input : gen_row_s2s_input = RowInstanceT /\ gen_row_s2p_input = RowInstanceT.
+Proof. split; reflexivity. Qed.
